@@ -25,6 +25,13 @@ CLAIMED = {
              design='4/C03',
              note='Trusted as for C02 plus the reader of get_precedence and the hand model PrintImpl.v. Partial: query forms (Pr, E, simulate, control, minE...) and double formatting are decided by the implementation oracle only; '
                   'trees on which `covered` is false (conservative spine condition) are decided by the oracle; binder symbols are compared up to alpha-equivalence.'),
+ 'C19': dict(technique='Coq proofs over a node-identity model of clone_deeper / subst / equal, arity table regenerated from get_size, extracted model run on the implementation\'s dumped trees, law oracle under ASan',
+             text='13 theorems: clone is structurally identical, equal, and allocates only fresh identities; subst is exactly tree substitution (self-substitution and absent symbols are identities); equal() coincides with equality of the identity-free tree '
+                  '(so it is reflexive, symmetric, transitive and discriminating); the regenerated get_size table agrees with the children the builder attaches for every tree of the expression language. '
+                  'Tied by running the extracted equal/subst/clone on the trees the real library dumps and by exercising the real laws (clone, mutation isolation, subst per symbol, equal on perturbed pairs, child walks) under ASan+UBSan.',
+             design='4/C19',
+             note='Trusted: hand model ExprLaws.v (tied by correspondence), reader of get_size, pointer identity via operator==. Hypotheses: no NaN / negative zero constants, identity coherence. '
+                  'Known finding: equal() ignores the type of CONSTANT nodes (1 vs true).'),
 }
 NOT_YET = 'check not built yet in this revision (work in progress, see DESIGN.md section 7 staging)'
 m = dict(version=1, setup_cmd='tools/setup.sh',
